@@ -556,8 +556,13 @@ func shFailedHandshake(rep *Report) {
 			tc.Read(buf)
 			tc.SetDeadline(time.Time{})
 		}
-		// the peer keeps its end open; give the server time to fail the handshake (silent peer: the read deadline)
-		time.Sleep(600 * time.Millisecond)
+		// the peer keeps its end open; give the server time to fail the handshake - except for the silent peer, where Shutdown
+		// is called while the handshake is still pending (it fails at the read deadline, 300 ms): a session counts from Accept on
+		if kind == "silent-peer" {
+			time.Sleep(50 * time.Millisecond)
+		} else {
+			time.Sleep(600 * time.Millisecond)
+		}
 		ctx, cancel := contextWithTimeout(3 * time.Second)
 		err = srv.Shutdown(ctx)
 		cancel()
